@@ -35,7 +35,8 @@ def close_case(c):
     for k, o in enumerate(ops):
         if o == [3] and strong > 0: strong += 1
         elif o == [4] and strong > 0: strong -= 1
-        elif len(o) == 6 and o[0] == 9 and k == 0 and o[5] in (0, 1) and 0 <= o[1] <= 63 and 0 <= o[2] <= 9 and o[3] in (0, 1) and 0 <= o[4] <= 3:
+        elif len(o) in (6, 7) and o[0] == 9 and k == 0 and o[5] in (0, 1) and 0 <= o[1] <= 63 and 0 <= o[2] <= 9 and o[3] in (0, 1) and 0 <= o[4] <= 3 \
+                and (len(o) == 6 or 0 <= o[6] <= 3):
             strong = 1 if o[5] == 1 else 0
         elif len(o) == 3 and o[0] == 6 and strong > 0 and 0 <= o[1] <= 2 and not (void and o[1] != 0) and abs(o[2]) <= 100000: nheld += 1
         elif o == [7] and nheld > 0: nheld -= 1
@@ -135,10 +136,15 @@ class G:
 
 def gen_random(rng, engine, name, nops):
     g = G(rng, engine)
-    if rng.random() < 0.12:      # the case starts with a listener on signal<T>::hook_up
+    if rng.random() < 0.15:      # the case starts with a listener on signal<T>::hook_up
         keep = rng.choice([1, 1, 1, 0])
-        g.ops.append([9, g.fresh(), rng.choice([0, 0, 2]), rng.choice([0, 0, 1]), rng.choice([0, 1, 2]), keep])
+        # the registration function emits n values itself; inside a coroutine more than one would be the known overrun
+        # (the result of a call made inside fn is discarded), and one followed by the drop as well
+        n = rng.choice([0, 1, 2, 3]) if not g.coro else (rng.choice([0, 1]) if keep else 0)
+        op = [9, g.fresh(), rng.choice([0, 0, 2]), rng.choice([0, 0, 1]), rng.choice([0, 1, 2]), keep]
+        g.ops.append(op + [n] if (n or rng.random() < 0.5) else op)
         g.cos = 1
+        if g.coro and n: g.dirty = True
         if not keep: g.strong = 0
     for _ in range(rng.randint(0, 3)):
         g.spawn() if rng.random() < 0.6 else g.connect()
@@ -192,6 +198,19 @@ def boundary(cases):
     return cases
 
 
+def hookup_cases():
+    out = []
+    k = 0
+    for eng in ENG:
+        coro = eng.startswith("sgc")
+        for keep in (1, 0):
+            for n in ((0, 1, 2, 3) if not coro else ((0, 1) if keep else (0,))):
+                for (lim, pause, retry) in ((0, 0, 0), (2, 0, 1), (0, 1, 0), (1, 0, 0)):
+                    ops = [[9, 1, lim, pause, retry, keep, n]] + ([[5]] if coro else []) + [[2, 0, 1 if coro else 0, 7]] + ([[5]] if coro else [])
+                    out.append(close_case(Case(eng, "h%d" % k, ops))); k += 1
+    return out
+
+
 def overrun_cases():
     """the known finding: collector result discarded inside a coroutine, collector called again (or last handle dropped)
     before the driver suspends — listeners only queued, they read the later value / are cancelled"""
@@ -209,6 +228,7 @@ def gen(seed, tier):
     n = 400 if tier == "quick" else 5000
     cases = boundary([])
     cases += overrun_cases()
+    cases += hookup_cases()
     for i in range(n):
         eng = ENG[i % 4]
         cases.append(gen_random(rng, eng, "g%d" % i, rng.choice([4, 8, 12, 20, 30])))
